@@ -1,5 +1,5 @@
 (* C19 - under Ringing Room's control, changes apply atomically and only between touches. *)
-From Wh Require Import Prelude Permute PN Gens Complib Tower Rhythm PyStr Sys GensP BotP RegressP Conc ConcP SettingP.
+From Wh Require Import Prelude Permute PN Gens Complib Tower Rhythm PyStr Sys GensP BotP RegressP Conc ConcP SettingP TurnoverP.
 From Coq Require Import NArith ZArith QArith.
 Close Scope Q_scope.
 
@@ -94,3 +94,9 @@ Theorem C19_speed_change_before_pull_off : forall r p t r',
   /\ r_data r' = r_data r
   /\ (forall now row place, regr_wait_plan r' now row place true = WPollPullOff).
 Proof. exact speed_change_before_pull_off. Qed.
+
+(* the control skeleton of a row turnover can only STOP the ringing: once Stop touch (or a stand) has switched it
+   off, no turnover - into a handstroke or a backstroke, whatever else is pending - switches it on again *)
+Theorem C19_turnover_never_starts_ringing : forall sar hjr nh ok fits k k' act,
+  snr_ctl sar hjr nh ok fits k = Ok (k', act) -> k_ringing k = false -> k_ringing k' = false.
+Proof. exact turnover_never_starts_ringing. Qed.
